@@ -48,12 +48,15 @@ func init() {
 			"(D9) the set of groups the export walks (the map ranged over by the exporter) agrees with the service's live group contexts: in every function that stores a non-nil *GroupContext into the service or activates one, each success return lies behind a store into that map. " +
 			"(D10) the group registry that the heads restore writes with a partial group (no secret, no type) is overwritten (sync.Map Store/Swap, not LoadOrStore / load-then-skip) with the caller's group before any store is opened in write mode, on every call chain. " +
 			"(D11) in the export RPC every path from a read of the archive pipe to the next read or to the end of the sender passes the Send of buffer[:n], except where err == io.EOF, n == 0 or an error is recorded; the frame sent is the read buffer cut to the count returned by that read. " +
-			"(D7) behind SecretStore.ImportAccountKeys every keystore Put lies behind a keystore Has phase whose 'exists' side reaches only error returns, and every error result on that path rejects (an existing account or an undecodable/missing key blob fails the import before anything is written). " +
+			"(D7) behind SecretStore.ImportAccountKeys every keystore Put lies behind a keystore Has phase whose 'exists' side reaches only error returns, and every error result on that path rejects (an existing account or an undecodable/missing key blob fails the import before anything is written); a module helper returning (bool, error) counts as that phase when every return reachable from an 'exists' edge returns true or a non-nil error and the caller's true side and error side reject. " +
 			"Not decided: that go-orbit-db's replicator/Load rebuilds an equal log and index from the restored blocks and heads (dependency), byte equality beyond 'the raw block of that CID' (cbornode.Decode re-serialises canonically), the guards inside the secret store (C11), snapshot consistency of an export racing with appends, errors that setHeadsForGroup only logs (advisory note).",
 		Trusted:     []string{"golang.org/x/tools go/packages+go/ssa (v0.29.0)", "archive/tar, go-cid (Parse, Cid.Equals), go-ipld-cbor Decode/Cid, go-ipld-format DAGService semantics", "go/types"},
 		Assumptions: []string{"dependencies behave as documented; only module code is analysed", "variables captured by the handler closures are assigned once (checked: single store)", "SHA2-256 content addressing is collision resistant, so a node whose CID equals the CID in the file name is the exported block"},
 		Floors:      map[string]int{"D1": 1, "D2": 2, "D3": 5, "D4": 4, "D5": 12, "D6": 8, "D7": 4, "D8": 3, "D9": 3, "D10": 2, "D11": 2},
 		Run:         runC20,
+		Borrows: []Borrow{
+			{From: "C11", Rules: []string{"D6"}, Why: "the 'no account key yet' test of the import and the writes of the imported keys must run in one critical section with the first-use key generation: otherwise two concurrent restores (or a restore and a first use) both pass the test and the restored identity is overwritten or overwrites a key already handed out"},
+		},
 	})
 }
 
@@ -3235,10 +3238,11 @@ const (
 )
 
 type c20Guards struct {
-	w        *World
-	putMemo  map[*ssa.Function]int // 0 unknown, 1 no, 2 yes
-	guardFn  map[*ssa.Function]int
-	problems map[*ssa.Function]string
+	w         *World
+	putMemo   map[*ssa.Function]int // 0 unknown, 1 no, 2 yes
+	guardFn   map[*ssa.Function]int
+	boolGuard map[*ssa.Function]int
+	problems  map[*ssa.Function]string
 }
 
 // reachesPut: fn or a static secretstore callee (depth 3) calls keystore.Put.
@@ -3269,13 +3273,17 @@ func (g *c20Guards) reachesPut(fn *ssa.Function, depth int) bool {
 
 // hasSiteOK: the Has call's verdicts are enforced: exists => only error returns; error => reject.
 func c20HasSiteOK(fn *ssa.Function, ci ssa.CallInstruction) (bool, string) {
+	what := "keystore.Has"
+	if cal := staticCallee(ci.Common()); cal != nil && inModule(cal) {
+		what = fnName(cal)
+	}
 	bv := boolVerdict(ci)
 	if bv == nil {
-		return false, "the 'exists' result of keystore.Has is discarded"
+		return false, "the 'exists' result of " + what + " is discarded"
 	}
 	ve := edgesOfVerdict(bv)
 	if len(ve.Ifs) == 0 {
-		return false, "the 'exists' result of keystore.Has is never tested"
+		return false, "the 'exists' result of " + what + " is never tested"
 	}
 	region := reachFromEdges(ve.Accept, nil)
 	for _, r := range returnsOf(fn) {
@@ -3284,7 +3292,7 @@ func c20HasSiteOK(fn *ssa.Function, ci ssa.CallInstruction) (bool, string) {
 		}
 	}
 	if r := c20RejectOnFailure(fn, errVerdict(ci)); !r.OK {
-		return false, "keystore.Has error: " + r.Why
+		return false, what + " error: " + r.Why
 	}
 	return true, ""
 }
@@ -3310,6 +3318,16 @@ func (g *c20Guards) guardSites(fn *ssa.Function, depth int) []ssa.Instruction {
 			if cal == nil || cal.Blocks == nil || !inModule(cal) || cal == fn || depth >= 2 {
 				continue
 			}
+			if g.isBoolGuardFn(cal, depth+1) {
+				// a helper answering "does an account key exist?": a guard when its true side and
+				// its error reject here
+				if ok, why := c20HasSiteOK(fn, call); ok {
+					out = append(out, call)
+				} else {
+					g.problems[fn] = why
+				}
+				continue
+			}
 			if g.isGuardFn(cal, depth+1) && errResultIndex(cal.Signature) >= 0 {
 				if r := rejectOnFailure(fn, errVerdict(call)); r.OK {
 					out = append(out, call)
@@ -3320,6 +3338,109 @@ func (g *c20Guards) guardSites(fn *ssa.Function, depth int) []ssa.Instruction {
 		}
 	}
 	return out
+}
+
+// isBoolGuardFn: fn returns (bool, error) and answers "does an account key exist?": every
+// return reachable from an "exists" edge of a keystore.Has (or of a nested helper of this
+// kind) returns true or a non-nil error, lookup errors reject, and every return that may say
+// "false, nil" lies behind the lookup phase.
+func (g *c20Guards) isBoolGuardFn(fn *ssa.Function, depth int) bool {
+	if v := g.boolGuard[fn]; v != 0 {
+		return v == 2
+	}
+	g.boolGuard[fn] = 1
+	res := fn.Signature.Results()
+	bi, ei := -1, errResultIndex(fn.Signature)
+	for i := 0; i < res.Len(); i++ {
+		if isBoolType(res.At(i).Type()) {
+			bi = i
+		}
+	}
+	if bi < 0 || ei < 0 || res.Len() != 2 {
+		return false
+	}
+	var sites []*ssa.Call
+	for _, b := range fn.Blocks {
+		for _, in := range b.Instrs {
+			call, ok := in.(*ssa.Call)
+			if !ok {
+				continue
+			}
+			if calleeKey(call.Common()) == c20KsHas {
+				sites = append(sites, call)
+				continue
+			}
+			if cal := staticCallee(call.Common()); cal != nil && cal.Blocks != nil && inModule(cal) && cal != fn && depth < 2 && g.isBoolGuardFn(cal, depth+1) {
+				sites = append(sites, call)
+			}
+		}
+	}
+	if len(sites) == 0 {
+		return false
+	}
+	saysTrueOrErr := func(r *ssa.Return) bool {
+		rv := retResults(r)
+		if bi < len(rv) {
+			if bv, isC := constBool(rv[bi]); isC && bv {
+				return true
+			}
+		}
+		return ei < len(rv) && definitelyNonNilErr(rv[ei], r.Block(), 0)
+	}
+	for _, h := range sites {
+		bv := boolVerdict(h)
+		if bv == nil {
+			g.problems[fn] = fnName(fn) + " discards the 'exists' answer of a lookup"
+			return false
+		}
+		ve := edgesOfVerdict(bv)
+		if len(ve.Ifs) == 0 {
+			// the answer may be handed on unchanged
+			passed := true
+			for _, r := range returnsOf(fn) {
+				rv := retResults(r)
+				if bi < len(rv) && rv[bi] != bv && !saysTrueOrErr(r) && instrDominates(h, r) {
+					passed = false
+				}
+			}
+			if !passed {
+				g.problems[fn] = fnName(fn) + " never tests the 'exists' answer of a lookup"
+				return false
+			}
+		} else {
+			region := reachFromEdges(ve.Accept, nil)
+			for _, r := range returnsOf(fn) {
+				if region[r.Block()] && !saysTrueOrErr(r) {
+					g.problems[fn] = fnName(fn) + " can return false although a lookup found an existing account key (return at " + g.w.Fset.Position(posOf(r)).String() + ")"
+					return false
+				}
+			}
+		}
+		if r := c20RejectOnFailure(fn, errVerdict(h)); !r.OK {
+			g.problems[fn] = fnName(fn) + ": lookup error: " + r.Why
+			return false
+		}
+	}
+	// "false, nil" only behind the lookup phase
+	for _, r := range returnsOf(fn) {
+		if saysTrueOrErr(r) {
+			continue
+		}
+		ok := false
+		for _, h := range sites {
+			for _, p := range c20PhaseBlocks(h.Block()) {
+				if p.Dominates(r.Block()) {
+					ok = true
+				}
+			}
+		}
+		if !ok {
+			g.problems[fn] = fnName(fn) + " can answer 'no account key' without having asked the keystore"
+			return false
+		}
+	}
+	g.boolGuard[fn] = 2
+	return true
 }
 
 // isGuardFn: every success return of fn lies behind a guard phase.
@@ -3388,7 +3509,7 @@ func runC20ImportGuards(c *Ctx) {
 		c.undecided("D7", "SecretStore.ImportAccountKeys", token.NoPos, "no implementation of SecretStore.ImportAccountKeys found in %s", c20Secret)
 		return
 	}
-	g := &c20Guards{w: w, putMemo: map[*ssa.Function]int{}, guardFn: map[*ssa.Function]int{}, problems: map[*ssa.Function]string{}}
+	g := &c20Guards{w: w, putMemo: map[*ssa.Function]int{}, guardFn: map[*ssa.Function]int{}, boolGuard: map[*ssa.Function]int{}, problems: map[*ssa.Function]string{}}
 	nPut, nHas := 0, 0
 	visited := map[*ssa.Function]bool{}
 	var walk func(fn *ssa.Function, depth int)
@@ -3409,7 +3530,11 @@ func runC20ImportGuards(c *Ctx) {
 				cal := staticCallee(call.Common())
 				nHas++
 				c.analysed(cal)
-				c.ok("D7", fnName(fn)+"->"+fnName(cal)+"+keystore.Has", posOf(call), "%s succeeds only behind a keystore.Has phase whose 'exists' side errors, and its error is enforced here", fnName(cal))
+				if g.boolGuard[cal] == 2 {
+					c.ok("D7", fnName(fn)+"->"+fnName(cal)+"+keystore.Has", posOf(call), "%s answers true (or fails) whenever a keystore.Has finds a key; its true side and its error reject here", fnName(cal))
+				} else {
+					c.ok("D7", fnName(fn)+"->"+fnName(cal)+"+keystore.Has", posOf(call), "%s succeeds only behind a keystore.Has phase whose 'exists' side errors, and its error is enforced here", fnName(cal))
+				}
 			}
 		}
 		for _, b := range fn.Blocks {
@@ -3441,8 +3566,13 @@ func runC20ImportGuards(c *Ctx) {
 				case direct:
 					nPut++
 					why := "no keystore.Has phase precedes it on every path"
+					var ps []string
 					for _, p := range g.problems {
-						why = p
+						ps = append(ps, p)
+					}
+					sort.Strings(ps)
+					if len(ps) > 0 {
+						why = strings.Join(ps, "; ")
 					}
 					c.fail("D7", fnName(fn)+"+keystore.Put", posOf(ci), "an imported account key is written although the keystore may already hold an account: %s", why)
 				default:
